@@ -17,9 +17,59 @@ def plans(tier):
     ]
 
 
+def append_probes(chk, sd, binp):
+    """minimal remapping quantifies over STATES: from every reachable state of a small pool model (backends ejected or
+    not, windows running or elapsed) every client asks once, a backend is appended, every client asks again --
+    a client may only have moved to the appended backend"""
+    import graphs
+    from collections import deque
+    c = pc.consts(["ip_hash_consistent"], N=4, N0=3, weight="W111", win=1, passive=False, mark=True, admin=False,
+                  clients=(1,), outcomes=("ok",))
+    g = pc.tlc_cfg("MCPool", pc.cfg_text(c), "gen.cfg", workers=8, timeout=900)
+    adj = graphs.build(g.printed("TR"))
+    scripts = []
+    clients = ["10.0.%d.%d" % (i // 200, 1 + i % 200) for i in range(24)]     # real addresses: the hash is the code's
+    for i, ini in enumerate(g.printed("IN")):
+        par = {ini["s"]: None}
+        dq = deque([ini["s"]])
+        order = []
+        while dq:
+            x = dq.popleft()
+            order.append(x)
+            for (k, a, t) in adj.get(x, []):
+                if t not in par:
+                    par[t] = (x, a)
+                    dq.append(t)
+        for j, x in enumerate(order):
+            p = []
+            y = x
+            while par[y] is not None:
+                y, a = par[y]
+                p.append(a)
+            p.reverse()
+            steps, rid = [], 0
+            for a in p:
+                rid += 1
+                steps.append(pc.act_to_step(a, rid))
+            for rnd in (0, 1):
+                for cl in clients:
+                    rid += 1
+                    steps.append({"a": "req", "id": rid, "client": cl, "plan": "ok"})
+                if rnd == 0:
+                    steps.append({"a": "admin", "op": "add", "name": "b4", "addr": "http://b4.backend.test:80", "w": 1})
+            scripts.append({"id": "probe-%d-%d" % (i, j), "cfg": ini["cf"], "steps": steps})
+    tp = pc.replay(binp, scripts, sd, "probe")
+    chk.cov["traces_validated_against_impl"] += len(scripts)
+    chk.cov["append_probes_from_states"] = len(scripts)
+    for s in scripts:
+        chk.count_case([s["id"]])
+    pc.judge(chk, tp, scripts, {"C06"}, sd, "probe", clauses={"DispatchToUnknown", "DispatchInWindow"})
+
+
 def sweeps(chk, sd, binp):
     import dist_common
     dist_common.run(chk, sd, chk.tier, ['jump', 'addr', 'affconc'], {"C06"})
+    append_probes(chk, sd, binp)
 
 
 def run(tier):
